@@ -71,8 +71,8 @@ PROPS = {
     "C02": wire_prop("C02", ["decoders_safe", "openValue_safe", "parseValue_safe", "parseList_safe", "parseMessage_safe",
                              "list_accessors_safe", "message_accessors_safe", "genStructFields_safe", "genStructDecode_safe"],
                      ["c02"], {"assumptions": ["Go slices/ints as modelled (64-bit int, no overflow below 2^63)", "index out of range on List.Get(i) with i >= Len() is caller misuse, not hostile data"]}),
-    "C13": wire_prop("C13", ["decoders_local", "parse_local", "parse_depends_only_on_value", "reparse", "fuel_irrelevant"],
-                     ["c13"], {"assumptions": ["partial: the parser/probe/open agreement clause is checked differentially and by the Go-side oracle, not by a theorem"]}),
+    "C13": wire_prop("C13", ["decoders_local", "parse_local", "parse_depends_only_on_value", "reparse", "fuel_irrelevant", "parse_probe_agree", "parse_open_agree"],
+                     ["c13"], {"assumptions": ["the agreement theorems cover 'parser accepts => probe and open report the same size and bytes'; the probe accepting more than the recursive parser is by design"]}),
     "C01": writer_prop("C01", ["parse_exact", "probe_exact", "list_roundtrip", "msg_field_found", "msg_field_absent",
                                 "msg_enumerates_written", "absent_reads_zero"], ["c01"],
                        {"assumptions": ["partial: writer_refines_layout (the writer state machine emits encList/encMsg of the children) is checked on every generated program by the drivers (REF-MISMATCH), not by a theorem",
